@@ -43,11 +43,13 @@ BasePieces == <<
   [Piece(FALSE, "INPUT", "Filter") EXCEPT !.inputs = << ArD("limit", Nm("Int"), L("int", 10)), Ar("tags", Li(Nn(Nm("String")))), Ar("must", Nn(Nm("Boolean"))),
                                                         ArD("color", Nm("Color"), L("enum", "RED")), Ar("sub", Nm("Filter")),
                                                         ArD("ratio", Nm("Float"), L("float", "1.5")), ArD("note", Nm("String"), L("str", "a b")),
-                                                        ArD("quoted", Nm("String"), L("str", "say \"hi\" \\ bye")) >>],
+                                                        ArD("quoted", Nm("String"), L("str", "say \"hi\" \\ bye")),
+                                                        \* an explicit null default is a default
+                                                        ArD("maybe", Nm("Int"), L("null", 0)) >>],
   [Piece(FALSE, "INTERFACE", "Node") EXCEPT !.fields = << Fd("id", Nn(Nm("ID")), <<>>), Fd("label", Nm("String"), <<ArD("up", Nm("Boolean"), L("bool", TRUE))>>) >>],
   [Piece(FALSE, "OBJECT", "User") EXCEPT !.ifaces = <<"Node">>,
         !.fields = << Fd("id", Nn(Nm("ID")), <<>>), Fd("label", Nm("String"), <<ArD("up", Nm("Boolean"), L("bool", TRUE))>>),
-                      Fd("friends", Nn(Li(Nn(Nm("User")))), <<ArD("first", Nm("Int"), L("int", 5)), Ar("filter", Nm("Filter")),
+                      Fd("friends", Nn(Li(Nn(Nm("User")))), <<ArD("first", Nm("Int"), L("int", 5)), ArD("after", Nm("ID"), L("null", 0)), Ar("filter", Nm("Filter")),
                                                               ArD("ids", Li(Nm("ID")), L("list", <<L("int", 1), L("str", "b")>>)),
                                                               ArD("f", Nm("Filter"), L("obj", << <<"must", L("bool", TRUE)>>, <<"tags", L("list", <<L("str", "x")>>)>> >>))>>),
                       [Fd("old", Nm("Int"), <<>>) EXCEPT !.dep = TRUE, !.reason = "use new"],
@@ -59,7 +61,7 @@ BasePieces == <<
   [Piece(FALSE, "OBJECT", "Post") EXCEPT !.ifaces = <<"Node">>,
         !.fields = << Fd("id", Nn(Nm("ID")), <<>>), Fd("label", Nm("String"), <<ArD("up", Nm("Boolean"), L("bool", TRUE))>>), Fd("author", Nm("User"), <<>>) >>],
   [Piece(FALSE, "UNION", "Item") EXCEPT !.members = <<"User", "Post">>],
-  [Piece(FALSE, "DIRECTIVE", "tag") EXCEPT !.locs = <<"FIELD_DEFINITION", "OBJECT", "SCHEMA">>, !.args = << ArD("n", Nm("Int"), L("int", 1)), Ar("s", Li(Nm("String"))) >>],
+  [Piece(FALSE, "DIRECTIVE", "tag") EXCEPT !.locs = <<"FIELD_DEFINITION", "OBJECT", "SCHEMA">>, !.args = << ArD("n", Nm("Int"), L("int", 1)), Ar("s", Li(Nm("String"))), ArD("z", Nm("String"), L("null", 0)) >>],
   [Piece(FALSE, "OBJECT", "Query") EXCEPT !.fields = << Fd("node", Nm("Node"), <<Ar("id", Nn(Nm("ID")))>>), Fd("items", Li(Nm("Item")), <<>>), Fd("me", Nm("User"), <<>>) >>],
   [Piece(FALSE, "OBJECT", "Mut") EXCEPT !.fields = << Fd("touch", Nm("Boolean"), <<Ar("when", Nm("DateTime"))>>) >>],
   [Piece(FALSE, "SCHEMA", "") EXCEPT !.roots = << <<"query", "Query">>, <<"mutation", "Mut">> >>]
